@@ -234,7 +234,9 @@ const FRAGS: &[Frag] = &[
          (v128.store (i32.const 0) (local.get 0)) (v128.store32_lane 1 (i32.const 0) (local.get 0))
          (i8x16.shuffle 0 1 2 3 4 5 6 7 8 9 10 11 12 13 14 31 (local.get 0) (v128.const i32x4 0xffffffff 0 1 0x80000000))
          (i32x4.add (v128.load32_splat (i32.const 4))) (f32x4.replace_lane 2 (f32.const nan)) (v128.bitselect (v128.load64_zero offset=8 (i32.const 0)) (v128.const i64x2 -1 1)))
-       (global $sg# v128 (v128.const i8x16 1 2 3 4 5 6 7 8 9 10 11 12 13 14 15 255))"),
+       (global $sg# v128 (v128.const i8x16 1 2 3 4 5 6 7 8 9 10 11 12 13 14 15 255))
+       (global $sh# v128 (v128.const i64x2 0x8000000000000001 2)) (global $si# (mut v128) (v128.const i32x4 0 0x80000000 0x7fffffff 0))
+       (global $sj# v128 (v128.const i64x2 -2 0x7fffffffffffffff))"),
     f("tail-call", "(type $tc#t (func (param i32) (result i32)))", "",
       "(table $tct# 1 funcref) (func $tc#a (type $tc#t) (return_call $tc#b (local.get 0))) (func $tc#b (type $tc#t) (return_call_indirect $tct# (type $tc#t) (local.get 0) (i32.const 0)))"),
     f("function-references", "(type $fr#t (func (param i32) (result i32)))", "",
@@ -343,8 +345,34 @@ fn split_local_runs(wasm: &[u8], r: &mut Rng) -> Option<Vec<u8>> {
     let mut rr = wasm_encoder::reencode::RoundtripReencoder;
     let mut code = wasm_encoder::CodeSection::new();
     let mut any = false;
+    // number of parameters of each local function (to address the last declared local)
+    let mut type_params: Vec<Option<u32>> = vec![];
+    let mut func_types: Vec<u32> = vec![];
+    for p in Parser::new(0).parse_all(wasm) {
+        match p.ok()? {
+            Payload::TypeSection(r) => {
+                for g in r {
+                    for st in g.ok()?.types() {
+                        type_params.push(match &st.composite_type.inner {
+                            wasmparser::CompositeInnerType::Func(f) => Some(f.params().len() as u32),
+                            _ => None,
+                        });
+                    }
+                }
+            }
+            Payload::FunctionSection(r) => {
+                for t in r {
+                    func_types.push(t.ok()?);
+                }
+            }
+            _ => {}
+        }
+    }
+    let mut k = 0usize;
     for p in Parser::new(0).parse_all(wasm) {
         if let Payload::CodeSectionEntry(b) = p.ok()? {
+            let nparams = func_types.get(k).and_then(|t| type_params.get(*t as usize).copied().flatten());
+            k += 1;
             let mut locals: Vec<(u32, wasm_encoder::ValType)> = vec![];
             let lr = b.get_locals_reader().ok()?;
             for l in lr {
@@ -359,7 +387,26 @@ fn split_local_runs(wasm: &[u8], r: &mut Rng) -> Option<Vec<u8>> {
                     locals.push((n, t));
                 }
             }
+            // and one function in two gets an unused extra run behind its last declaration, of the same type (count >= 2)
+            let mut use_last: Option<u32> = None;
+            if r.chance(1, 2) {
+                let t = locals.last().map_or(wasm_encoder::ValType::I32, |l| l.1);
+                if locals.is_empty() {
+                    locals.push((1, t));
+                }
+                locals.push((2 + r.below(3) as u32, t));
+                any = true;
+                // the last of the added locals is read at the start of the body (when its type has a default value)
+                let defaultable = !matches!(t, wasm_encoder::ValType::Ref(rt) if !rt.nullable);
+                if let (true, Some(np)) = (defaultable, nparams) {
+                    use_last = Some(np + locals.iter().map(|l| l.0).sum::<u32>() - 1);
+                }
+            }
             let mut f = wasm_encoder::Function::new(locals);
+            if let Some(ix) = use_last {
+                f.instruction(&wasm_encoder::Instruction::LocalGet(ix));
+                f.instruction(&wasm_encoder::Instruction::Drop);
+            }
             let ops = b.get_operators_reader().ok()?;
             let mut br = ops.get_binary_reader();
             let rest = br.read_bytes(br.bytes_remaining()).ok()?;
@@ -385,6 +432,59 @@ fn split_local_runs(wasm: &[u8], r: &mut Rng) -> Option<Vec<u8>> {
         }
     }
     Some(m.finish())
+}
+
+/// the thirteen numbers of `Orca.Sections.Shape`, counted on a binary with wasmparser
+fn shape_of(wasm: &[u8]) -> Option<String> {
+    use wasmparser::{Parser, Payload, TypeRef};
+    let (mut groups, mut imports, mut funcs, mut tables, mut mems, mut tags, mut globals, mut exports) = (0u32, 0u32, 0u32, 0u32, 0u32, 0u32, 0u32, 0u32);
+    let (mut start, mut elems, mut datacount, mut datas, mut customs) = (0u32, 0u32, 0u32, 0u32, 0u32);
+    for p in Parser::new(0).parse_all(wasm) {
+        match p.ok()? {
+            Payload::TypeSection(r) => groups += r.count(),
+            Payload::ImportSection(r) => {
+                for i in r {
+                    imports += 1;
+                    match i.ok()?.ty {
+                        TypeRef::Func(_) => funcs += 1,
+                        TypeRef::Memory(_) => mems += 1,
+                        TypeRef::Global(_) => globals += 1,
+                        _ => {}
+                    }
+                }
+            }
+            Payload::FunctionSection(r) => funcs += r.count(),
+            Payload::TableSection(r) => tables += r.count(),
+            Payload::MemorySection(r) => mems += r.count(),
+            Payload::TagSection(r) => tags += r.count(),
+            Payload::GlobalSection(r) => globals += r.count(),
+            Payload::ExportSection(r) => exports += r.count(),
+            Payload::StartSection { .. } => start = 1,
+            Payload::ElementSection(r) => elems += r.count(),
+            Payload::DataCountSection { .. } => datacount = 1,
+            Payload::DataSection(r) => datas += r.count(),
+            Payload::CustomSection(c) => {
+                if c.name() != "name" {
+                    customs += 1
+                }
+            }
+            _ => {}
+        }
+    }
+    Some(format!("{groups}.{imports}.{funcs}.{tables}.{mems}.{tags}.{globals}.{exports}.{start}.{elems}.{datacount}.{datas}.{customs}"))
+}
+
+/// the section ids of a binary, in order (0 = custom)
+fn section_ids(wasm: &[u8]) -> Vec<String> {
+    let mut v = vec![];
+    for p in wasmparser::Parser::new(0).parse_all(wasm) {
+        if let Ok(p) = p {
+            if let Some((id, _)) = p.as_section() {
+                v.push(id.to_string());
+            }
+        }
+    }
+    v
 }
 
 fn fixtures() -> Vec<std::path::PathBuf> {
@@ -482,7 +582,8 @@ pub fn run(ctx: &mut Ctx) {
         }
         ctx.count(if label.starts_with("zoo") { "input=generated" } else { "input=fixture" });
         let show = |v: &Vec<String>| if v.is_empty() { "-".to_string() } else { v.join(",") };
-        ctx.case_line(&format!("roundtrip {case} src={} vts={} consts={} groups={}", label.replace(' ', "_"), show(&conv_in.vts), show(&conv_in.consts), show(&conv_in.groups)));
+        let shape = shape_of(&bytes).unwrap_or_else(|| "?".into());
+        ctx.case_line(&format!("roundtrip {case} src={} vts={} consts={} groups={} shape={shape}", label.replace(' ', "_"), show(&conv_in.vts), show(&conv_in.consts), show(&conv_in.groups)));
         let res = guarded(|| Module::parse(&bytes, mm).map(|mut m| m.encode()).map_err(|e| format!("{e:?}")));
         let out = match res {
             Err(p) => {
@@ -504,6 +605,7 @@ pub fn run(ctx: &mut Ctx) {
                 ctx.impl_line(&format!("roundtrip {case} vts={}", show(&c.vts)));
                 ctx.impl_line(&format!("roundtrip {case} consts={}", show(&c.consts)));
                 ctx.impl_line(&format!("roundtrip {case} groups={}", show(&c.groups)));
+                ctx.impl_line(&format!("roundtrip {case} secs={}", show(&section_ids(&out))));
             }
             Err(e) => {
                 ctx.impl_line(&format!("roundtrip {case} UNDECODABLE"));
